@@ -41,6 +41,7 @@ type GenCfg struct {
 	Prefix      string
 	Adversarial bool // store names / descriptions that mention the metadata field names, quotes, braces, unicode
 	Bulk        int  // >0: bulk-load programs (ascending keys, Bulk adds per transaction) instead of random ones
+	ClearL2     int  // seq mode: percentage of transactions preceded by a full clear of the L2 cache (in-memory L2)
 	Neighbour   bool // programs whose transactions work on adjacent keys (interior item and its successor / predecessor)
 }
 
